@@ -193,6 +193,39 @@ def slice_store_templates():
             pre.append("-2 <= k <= 2 and k != 0")
         src = "L = list(S)\nM = L\nL[%s] = R\nlog(L, M is L)\n" % sl
         yield "C13:slicestore:%d%d%d" % (lo, hi, st), src, params, " and ".join(pre)
+    # the same slice stores (plain and augmented) in the other scope kinds
+    def place(body, pl):
+        ind = "".join("    " + l + "\n" for l in body.splitlines())
+        if pl == "function":
+            return "def outer():\n" + ind + "outer()\n"
+        if pl == "class":
+            return "class Outer:\n" + ind
+        if pl == "closure":
+            lines = body.splitlines()
+            return "def outer():\n    " + lines[0] + "\n    " + lines[1] + "\n    def inner():\n" + "".join("        " + l + "\n" for l in lines[2:]) + "    inner()\nouter()\n"
+        raise ValueError(pl)
+
+    for pl in ("function", "class", "closure"):
+        for lo, hi, aug in ((1, 1, 0), (1, 0, 0), (0, 1, 1), (1, 1, 1)):
+            sl = "%s:%s" % ("i" if lo else "", "j" if hi else "")
+            params = [("S", "List[int]"), ("R", "List[int]")]
+            pre = ["len(S) <= 2", "len(R) <= 2"]
+            if lo:
+                params.append(("i", "int"))
+                pre.append("-3 <= i <= 3")
+            if hi:
+                params.append(("j", "int"))
+                pre.append("-3 <= j <= 3")
+            body = "L = list(S)\nM = L\nL[%s] %s R\nlog(L, M is L)\n" % (sl, "+=" if aug else "=")
+            yield "C13:slicestore:%s:%d%d%s" % (pl, lo, hi, "aug" if aug else ""), place(body, pl), params, " and ".join(pre)
+    # slices inside a tuple index (extended slices), stores / augmented stores / loop targets
+    rec = (
+        "def key(k):\n    return tuple((x.start, x.stop, x.step) if isinstance(x, slice) else x for x in (k if isinstance(k, tuple) else (k,)))\n"
+        "class Rec:\n    def __setitem__(s, k, v):\n        log('set', key(k), v)\n    def __getitem__(s, k):\n        log('get', key(k))\n        return 1\n"
+    )
+    for pl in ("module", "function", "class"):
+        body = "d = Rec()\nd[i:j, v] = v\nd[i:j, ::v] += v\nd[..., i:] = j\nfor d[i, j:] in [v, i]:\n    pass\nx = d[:i, v:j] = j\nlog(x)\n"
+        yield "C13:extslice:%s" % pl, rec + (body if pl == "module" else place(body, pl)), [("i", "int"), ("j", "int"), ("v", "int")], "-2 <= i <= 2 and -2 <= j <= 2 and -2 <= v <= 2"
     # index store, dict store, attribute store, nested containers, negative index
     yield (
         "C13:indexstore:list",
